@@ -224,13 +224,14 @@ fn main() {
     let a = parse_args();
     quiet_panics();
     let mut out = Out::create(&a.out);
+    // number of end-to-end scenarios: --e2e N, default by tier
     let e2e_n: u64 = a
         .extra
         .iter()
         .position(|x| x == "--e2e")
         .and_then(|i| a.extra.get(i + 1))
         .and_then(|v| v.parse().ok())
-        .unwrap_or(0);
+        .unwrap_or(if a.tier == "thorough" { 6000 } else { 150 });
     if let Some(p) = &a.replay {
         for c in read_cases(p) {
             if let Some(o) = run_case(&c) {
